@@ -371,24 +371,27 @@ Definition net_core (n : nat) : core T := {|
 
 (** rsi.rs *)
 Record rsi_st := { rsi_gain : T; rsi_loss : T; rsi_oldref : T; rsi_lastval : T; rsi_q : list T; rsi_out : option T }.
+(** gains and losses over the changes inside the window, summed afresh on every update
+    ([prev] starts at the value that precedes the window) *)
+Fixpoint rsi_sums (wl : T) (q : list T) (prev gain loss : T) : res (T * T) :=
+  match q with
+  | [] => Ok (gain, loss)
+  | v :: r =>
+      let change := v -. prev in
+      if sgtb change s0 then do d <- sdiv change wl; rsi_sums wl r v (gain +. d) loss
+      else do d <- sdiv (sabs change) wl; rsi_sums wl r v gain (loss +. d)
+  end.
 Definition rsi_step (n : nat) (s : rsi_st) (v : T) : res rsi_st :=
-  let '(oldref, lastval) := match rsi_q s with [] => (v, v) | _ => (rsi_oldref s, rsi_lastval s) end in
+  let oldref := match rsi_q s with [] => v | _ => rsi_oldref s end in
   let wl := sofnat n in
-  do '(gain, loss, oldref, q) <-
-     (if Nat.leb n (length (rsi_q s))
-      then do old <- front (rsi_q s);
-           let change := old -. oldref in
-           if sgtb change s0
-           then do d <- sdiv change wl; Ok (rsi_gain s -. d, rsi_loss s, old, tl (rsi_q s))
-           else do d <- sdiv (sabs change) wl; Ok (rsi_gain s, rsi_loss s -. d, old, tl (rsi_q s))
-      else Ok (rsi_gain s, rsi_loss s, oldref, rsi_q s));
+  do '(oldref, q) <- (if Nat.leb n (length (rsi_q s))
+                      then do '(old, q') <- pop_front (rsi_q s); Ok (old, q')
+                      else Ok (oldref, rsi_q s));
   let q := q ++ [v] in
-  let change := v -. lastval in
-  do '(gain, loss) <- (if sgtb change s0 then do d <- sdiv change wl; Ok (gain +. d, loss)
-                       else do d <- sdiv (sabs change) wl; Ok (gain, loss +. d));
   if Nat.ltb (length q) n
-  then Ok {| rsi_gain := gain; rsi_loss := loss; rsi_oldref := oldref; rsi_lastval := v; rsi_q := q; rsi_out := rsi_out s |}
+  then Ok {| rsi_gain := rsi_gain s; rsi_loss := rsi_loss s; rsi_oldref := oldref; rsi_lastval := v; rsi_q := q; rsi_out := rsi_out s |}
   else
+    do '(gain, loss) <- rsi_sums wl q oldref s0 s0;
     let hundred := sofdec 100 0 in
     do out <- (if seqb loss s0 then Ok hundred
                else do rs <- sdiv gain loss; do d <- sdiv hundred (s1 +. rs); Ok (hundred -. d));
@@ -400,16 +403,19 @@ Definition rsi_core (n : nat) : core T := {|
 
 (** my_rsi.rs *)
 Record myrsi_st := { my_cu : T; my_cd : T; my_out : T; my_q : list T; my_lastval : T; my_oldest : T }.
+(** 'closes up' and 'closes down' over the changes inside the window, summed afresh on every update *)
+Fixpoint myrsi_sums (q : list T) (prev cu cd : T) : T * T :=
+  match q with
+  | [] => (cu, cd)
+  | v :: r => if sgtb v prev then myrsi_sums r v (cu +. v -. prev) cd else myrsi_sums r v cu (cd +. prev -. v)
+  end.
 Definition myrsi_step (n : nat) (s : myrsi_st) (v : T) : res myrsi_st :=
-  let '(oldest, lastval) := match my_q s with [] => (v, v) | _ => (my_oldest s, my_lastval s) end in
-  do '(cu, cd, oldest, q) <-
-     (if Nat.leb n (length (my_q s))
-      then do '(old, q') <- pop_front (my_q s);
-           if sgtb old oldest then Ok (my_cu s -. (old -. oldest), my_cd s, old, q')
-           else Ok (my_cu s, my_cd s -. (oldest -. old), old, q')
-      else Ok (my_cu s, my_cd s, oldest, my_q s));
+  let oldest := match my_q s with [] => v | _ => my_oldest s end in
+  do '(oldest, q) <- (if Nat.leb n (length (my_q s))
+                      then do '(old, q') <- pop_front (my_q s); Ok (old, q')
+                      else Ok (oldest, my_q s));
   let q := q ++ [v] in
-  let '(cu, cd) := if sgtb v lastval then (cu +. v -. lastval, cd) else (cu, cd +. lastval -. v) in
+  let '(cu, cd) := myrsi_sums q oldest s0 s0 in
   do out <- (if sneb (cu +. cd) s0 then sdiv (cu -. cd) (cu +. cd) else Ok (my_out s));
   Ok {| my_cu := cu; my_cd := cd; my_out := out; my_q := q; my_lastval := v; my_oldest := oldest |}.
 Definition myrsi_core (n : nat) : core T := {|
